@@ -18,15 +18,15 @@ CLAIMS = {
  "C08": ("Theorem C08_checker_sound: top-level ports, per-interface AXI bindings and role enables, enumeration-name/identity pairing and AXI configuration records equal what the description implies.", "Coq-certified comparison (extracted) on real output vs spec.axi_expect", "DESIGN.md 5.8"),
  "C10": ("Theorem C10_no_output_on_failure over the step order regenerated from cli.py by an ast translator: no step that can raise follows the first write, so a rejected description leaves no package/top file; rejection itself is established by defect injection (22 classes x every site) through the real pipeline and CLI.", "fault enumeration via real CLI + Coq theorem over translated cli.py", "DESIGN.md 5.10"),
  "C19": ("Theorem C19_holds over facts regenerated from util/gen_jobs.py and the real address maps of the six shipped mesh examples: every transfer of every traffic type / direction / tile / oracle draw / burst length <= MEM_SIZE lies inside one mapped rule; local and channel addresses start the named rules. Hand model of gen_mesh_traffic tied by job-by-job comparison with the real generator.", "Coq proof over regenerated facts + differential correspondence", "DESIGN.md 5.19"),
+ "C11": ("Theorem C11_holds over facts regenerated every run (module headers of hw/, macros of typedef.svh, floo_pkg names, XYDirections, the instantiations / macro calls / floo_pkg names of really generated code for every template branch and shipped example, both mesh testbenches per shipped variant): modules/parameters/ports exist, directions compatible, inputs bound, macro arities, struct fields, algorithms, helper functions, compass numbering, testbench names.", "Coq theorem (vm_compute + lifting lemmas) over facts translated from the sources each run", "DESIGN.md 5.11"),
+ "C12": ("Partial. Theorem C12_checker_sound: chk_C12 = [] on text facts of the real files implies no duplicate declaration per scope, every used identifier available (file / package / floo_pkg / macro-defined by expansion of typedef.svh), sized literals hold their value, address literals have the address width and ceil(aw/4) digits, route words the route width, identifier-field and enum values fit. Not proved: that the templates produce balanced text for every description (decided per output by the fail-closed reader and the balance run). Two known findings (exclusive end bounds equal to 2^width).", "Coq-certified checker (extracted) on text facts of real output", "DESIGN.md 5.12"),
+ "C15": ("Partial. Theorems C15_modes_are_views / C15_mode_spec over cli.py as translated each run: in all 8 mode combinations the package/top text is the single value returned by render_package()/render_network() and the run emits exactly the expected views. Determinism across hash seeds, directories, in-process histories and key order has no proof content and is established differentially (labelled so in the evidence).", "Coq theorem over translated cli.py + differential testing (labelled)", "DESIGN.md 5.15"),
+ "C20": ("Theorem C20_holds over facts regenerated every run (Bender.yml, floo_noc.core, repository tree, module definitions and instantiation edges of hw/, files and modules of real floogen runs of all shipped examples): every listed path exists or is a generated name of the target's example; the instantiation closure (checked closed, sound w.r.t. inductive Reach) is listed in both manifests.", "Coq theorem (vm_compute + closure soundness) over regenerated facts", "DESIGN.md 5.20"),
  "C16": ("Theorem C16_holds: for every overlap-free table over Z (no bound) trim succeeds, preserves decoding exactly, stays overlap-free, keeps sizes and leaves no touching same-port rules; model = code bit-exactly on exhaustive small tables + random (drift 0); certified checker chk_C16 on the real result.", "Coq proof (induction, lia) + exhaustive differential correspondence", "DESIGN.md 5.16"),
  "C17": ("Theorem C17_holds characterises constructor and re-indexing completely over Z; exhaustive-grid + random differential run ties the model to the pydantic class; any disagreement is a failing input.", "Coq proof (lia case analysis) + differential correspondence", "DESIGN.md 5.17"),
  "C18": ("Theorem C18_holds: range selection = cartesian product (first dimension outermost, inclusive asc/desc) for any node predicate and any rank, error iff a node is missing; index and tree-level selection; exhaustive differential run on arrays up to 5x5 / trees depth 3.", "Coq proof (induction) + exhaustive differential correspondence", "DESIGN.md 5.18"),
 }
 PENDING = {
- "C11": "check under construction (facts regenerated from hw/ and templates; DESIGN.md 5.11); not yet claimed",
- "C12": "check under construction (text well-formedness checker; DESIGN.md 5.12); not yet claimed",
- "C15": "check under construction (determinism / CLI views; DESIGN.md 5.15); not yet claimed",
- "C20": "check under construction (manifest facts; DESIGN.md 5.20); not yet claimed",
 }
 man = {
  "version": 1,
